@@ -157,7 +157,7 @@ class HashTable:
             raise ValueError(
                 f"Could not add hash tables with differing keys ({self._keys, other._keys})"
             )
-        return HashTable(self._keys, self._values + other._values)
+        return HashTable(self._keys, self._values + other._values, value_dtype=self._value_dtype)
 
     def __iadd__(self, other):
         if isinstance(other, Number):
